@@ -78,4 +78,60 @@ PROPS = {
         assumptions=COMMON_ASSUME,
         floors=dict(quick={'distinct_nontrivial': 1000, 'feat:c10_transition': 12}, thorough={'distinct_nontrivial': 20000, 'feat:c10_transition': 16}),
     ),
+
+    'C04': dict(
+        technique='ASan+UBSan run of Decoder::decode on wire-model frames; every returned packet compared with an independent big-endian parse (fields, validity class, truncation prefix, zero padding)',
+        level_text='Exploration: frames are laid out by an independent wire model (all payload kinds, consistent / deliberately inconsistent / bus-error payloads, 0..6 messages, every version, message type and payload type byte), decoded on decoders with prior history (open reassemblies on the same endpoint) and each packet is compared field by field with an independent parse; every cut point of the canonical frames and zero paddings of several lengths are enumerated. Validity is demanded only where the statement fixes it (three-valued expectation).',
+        level_note='Trusted: wire model offsets (C12 layout table), expectValidity() classification in framegen.h; messages with error-in-payload or payload type 0 and message type 0 validity are outside the oracle.',
+        stages=[dict(driver='drv_decode', flavour='asan')],
+        rule=('cases = per payload kind x k in {0,1,2,5} messages: whole frame + EVERY cut point + zero paddings {1,15,16,17,64}; sweeps of all versions / message types / payload types; '
+              '300 inconsistent or bus-error variants per typed kind placed between valid messages; seeded random frames (0..6 messages, 15% inconsistent, 15% bus error) each also cut, padded and repeated. '
+              'Non-trivial = a decode that returned >= 1 packet; distinct = distinct hash of (message type, per message (kind, class), variant, validity pattern, packet count).'),
+        assumptions=COMMON_ASSUME,
+        floors=dict(quick={'distinct_nontrivial': 5000, 'cut_points': 3000, 'messages_expected_invalid': 5000, 'feat:c04_kinds': 12, 'feat:c04_invalid_kinds': 7},
+                    thorough={'distinct_nontrivial': 50000, 'cut_points': 3000, 'feat:c04_kinds': 12}),
+    ),
+    'C05': dict(
+        technique='ASan+UBSan run of multi-endpoint interleaved segment streams; per-call delivery oracle computed from the generation script (exactly-once, at the last segment, content by unique ids)',
+        level_text='Exploration: 1..4 endpoint streams of well-formed segmented (2..12 segments, sizes 0..max, unequal) and unsegmented messages with unique content are merged (all 20 merges x 36 starting-counter pairs exhaustively, bursty random merges otherwise), starting counters include 65533..65535, distinctive non-zero trailing bytes follow segments; after EVERY decode call the delivered packets must be exactly the messages that complete at that frame, with the first segment\'s header fields.',
+        level_note='Trusted: generation script bookkeeping; wire model. Reassembled totals > 65535 bytes are outside the domain.',
+        stages=[dict(driver='drv_decode', flavour='asan')],
+        rule=('cases = interleaved multi-endpoint histories; every decode call is one evaluation. A history is non-trivial iff >= 2 reassemblies were open simultaneously; '
+              'distinct = distinct hash of the interleaving (endpoint order + completions per frame). Extra counters: wrap_crossings, trailing_byte_cases, zero_length_segments.'),
+        assumptions=COMMON_ASSUME,
+        floors=dict(quick=dict(distinct_nontrivial=2000, wrap_crossings=100, trailing_byte_cases=1000, zero_length_segments=1000, exhaustive_merges=720),
+                    thorough=dict(distinct_nontrivial=50000, wrap_crossings=1000, exhaustive_merges=720)),
+    ),
+    'C06': dict(
+        technique='ASan+UBSan run of faulted encoder-like streams (drop/dup/swap/corrupt-version/corrupt-type); model-free integrity oracle via unique ids in the content plus recovery oracle',
+        level_text='Fault enumeration by execution: all single faults and all ordered pairs of faults on 16 canonical streams, and seeded random 1..6-fault sequences on streams of 6..60 frames over 1..3 endpoints; every delivered packet must be byte-identical to exactly one sent message (found through the id embedded in its content) and every message whose frames arrive complete, in order and uninterrupted on its endpoint must be delivered at its last frame.',
+        level_note='Trusted: the fault applicator and the bookkeeping of which sent message each frame carries. Duplicate delivery of duplicated frames is not forbidden by the statement and not flagged.',
+        stages=[dict(driver='drv_decode', flavour='asan')],
+        rule=('cases = (stream, fault sequence); non-trivial iff at least one fault hit a frame of a segmented message; distinct = distinct hash of the sequence of (fault kind, role of the hit frame in its message: unsegmented/first/middle/last) x stream id.'),
+        assumptions=COMMON_ASSUME,
+        floors=dict(quick={'distinct_nontrivial': 1000, 'exhaustive_fault_pairs': 57600, 'recovered_segmented_deliveries': 10000, 'feat:c06_fault_kinds': 5},
+                    thorough={'distinct_nontrivial': 5000, 'exhaustive_fault_pairs': 57600}),
+    ),
+    'C17': dict(
+        technique='ASan+UBSan+LeakSanitizer run with an invariant hook on the decoder (pending reassemblies, guarded by ASAM_CMP_VERIF) compared with a reference reassembly model after every decode call',
+        level_text='Exploration with an exhaustive core: after EVERY decode call the hooked list of (device, stream, buffered bytes) must equal the set of endpoints the reference model holds open, with buffered bytes <= received segment bytes; all 59049 words of length 5 over a 9-letter frame alphabet (first/mid/last/unsegmented/invalid/wrong-version/wrong-counter/TECMP/runt) on one endpoint (all words of length 4 over two endpoints in thorough) and seeded random multi-endpoint histories.',
+        level_note='Trusted: ref_decoder.h (validated on > 1 M frames, see DESIGN.md 7), the hook (read-only, inline). Restricted to frame shapes on which the reassembly rules are unambiguous.',
+        stages=[dict(driver='drv_decode', flavour='asan')],
+        rule=('cases = frame histories; every decode call is one evaluation (one comparison of the hooked pending list with the model). distinct_nontrivial = distinct (pending-state signature = sorted (endpoint, segments received) of the open messages, last frame letter) pairs observed.'),
+        assumptions=COMMON_ASSUME,
+        floors=dict(quick=dict(distinct_nontrivial=5000, exhaustive_words_len5_one_endpoint=59049, quiescent_points=10000),
+                    thorough=dict(distinct_nontrivial=50000, exhaustive_words_len5_one_endpoint=59049, exhaustive_words_len4_two_endpoints=104976)),
+        coverage_static=dict(quick=dict(exhaustive_subspaces=['all 9^5 frame-letter words on one endpoint']),
+                             thorough=dict(exhaustive_subspaces=['all 9^5 frame-letter words on one endpoint', 'all 18^4 words over two endpoints'])),
+    ),
+    'C18': dict(
+        technique='ASan+UBSan metamorphic monitor: one decoder fed the whole history versus fresh decoders fed each endpoint\'s projection, compared packet by packet',
+        level_text='Exploration: histories over 2..5 endpoints from a small id alphabet, dense in segment traffic, with 25% structurally mutated frames, TECMP frames, runts and re-addressed copies sprinkled in; all 20 merges of two 3-frame scripts for 400 script/endpoint-pair combinations are enumerated. For every endpoint the snapshot sequence from the mixed run must equal the run on its projection.',
+        level_note='Trusted: attribution of a frame to an endpoint by its header bytes (independent parse). Needs no reference decision on malformed frames.',
+        stages=[dict(driver='drv_decode', flavour='asan')],
+        rule=('cases = histories; non-trivial iff >= 2 endpoints had an open reassembly at the same time (a foreign frame arrived in between); distinct = distinct hash of the interleaving incl. mutation kinds.'),
+        assumptions=COMMON_ASSUME,
+        floors=dict(quick=dict(distinct_nontrivial=2000, exhaustive_merges=8000, projections_compared=20000),
+                    thorough=dict(distinct_nontrivial=50000, exhaustive_merges=8000)),
+    ),
 }
